@@ -100,6 +100,429 @@ theorem digits_alphabet (w n : Nat) : ∀ c ∈ digitsW digits 10 w n, c ∈ dig
   have : ∀ k < 10, chr digits k ∈ digits := by decide
   exact this k hk
 
+/-! ### `reverse_forward` on the integer level (UTM zones): `Reverse ∘ Forward` for all zones, bands, precisions -/
+
+/-- `Reverse` on a well-formed UTM string, given what its pieces look up to -/
+theorem decode_utm (s : List Nat) (cp : Bool) (c1 c2 d1 d2 kb kc kr prec ex ny : Nat) (R : Int)
+    (hinv : (decide (s.length ≥ 3) && (s.take 3).map upper == [73, 78, 86]) = false)
+    (hds : (s.takeWhile (fun c => (lookup digits c).isSome)).take 3 = [c1, c2])
+    (hd1 : lookup digits c1 = some d1) (hd2 : lookup digits c2 = some d2)
+    (hz : 1 ≤ 10 * d1 + d2 ∧ 10 * d1 + d2 ≤ 60)
+    (hlen : s.length = 5 + 2 * prec) (hprec : prec ≤ 11)
+    (hband : lookup latband (s.getD 2 0) = some kb)
+    (hcol : lookup (utmcols.getD (Int.tmod ((10 * d1 + d2 : Nat) - 1 : Int) 3).toNat []) (s.getD 3 0) = some kc)
+    (hrow : lookup utmrow (s.getD 4 0) = some kr)
+    (hR : utmRow ((kb:Int) - 10) kc
+        (if ((10 * d1 + d2 : Nat) - 1 : Int) % 2 = 1 then Int.tmod ((kr:Int) + period - mgrs_utmevenrowshift) period else kr) = R)
+    (hR100 : R ≠ maxS)
+    (heast : readNum digits 10 ((s.drop 5).take prec) = some ex)
+    (hnorth : readNum digits 10 ((s.drop (5 + prec)).take prec) = some ny) :
+    decodeInt s cp = .ok (.cell
+      ⟨(10 * d1 + d2 : Nat), decide ((kb:Int) ≥ 10),
+       (if cp then 2 * (((kc:Int) + 1) * 10 ^ prec + ex) + 1 else ((kc:Int) + 1) * 10 ^ prec + ex),
+       (if cp then 2 * ((if (kb:Int) ≥ 10 then R else R + 100) * 10 ^ prec + ny) + 1
+          else (if (kb:Int) ≥ 10 then R else R + 100) * 10 ^ prec + ny),
+       (if cp then 10 ^ prec * 2 else 10 ^ prec), prec⟩) := by
+  have hzone : List.foldl (fun (a : Int) c => 10 * a + ((lookup digits c).getD 0 : Nat)) 0 [c1, c2] = ((10 * d1 + d2 : Nat) : Int) := by
+    simp [hd1, hd2]
+  have z1 : ¬ (((10 * d1 + d2 : Nat) : Int) = zUPS) := by
+    show ¬ (((10 * d1 + d2 : Nat) : Int) = 0); omega
+  have z2 : ((10 * d1 + d2 : Nat) : Int) ≥ zMINUTMZONE ∧ ((10 * d1 + d2 : Nat) : Int) ≤ zMAXUTMZONE := by
+    show ((10 * d1 + d2 : Nat) : Int) ≥ 1 ∧ ((10 * d1 + d2 : Nat) : Int) ≤ 60; omega
+  have l1 : ¬ (5 + 2 * prec < 2 + 1) := by omega
+  have l2 : ¬ (2 + 1 = 5 + 2 * prec) := by omega
+  have l3 : ¬ (5 + 2 * prec < 2 + 1 + 2) := by omega
+  have l4 : (5 + 2 * prec - (2 + 1 + 2)) / 2 = prec := by omega
+  have l5 : ¬ ((5 + 2 * prec - (2 + 1 + 2)) % 2 = 1) := by omega
+  have l6 : ¬ ((prec : Int) > mgrs_maxprec) := by show ¬ ((prec:Int) > 11); omega
+  have z1' : ¬ (10 * (d1:Int) + d2 = zUPS) := by push_cast at z1; exact z1
+  have z2' : ¬ (10 * (d1:Int) + d2 < zMINUTMZONE ∨ zMAXUTMZONE < 10 * (d1:Int) + d2) := by push_cast at z2; omega
+  push_cast at hcol hR
+  simp only [List.getD_eq_getElem?_getD] at hband hcol hrow
+  have hinv' : ¬ (3 ≤ 5 + 2 * prec ∧ List.take 3 (List.map upper s) = [73, 78, 86]) := by
+    intro h
+    rw [hlen] at hinv
+    simp [List.map_take, h.2] at hinv
+    omega
+  unfold decodeInt
+  simp only [hds, hlen, hzone, List.length_cons, List.length_nil, Nat.zero_add]
+  simp [z1', z2', hinv', l1, l2, l3, l6, hband, hcol, hrow, hR, hR100, heast, hnorth]
+  cases cp <;> rfl
+
+/-- the UTM string written by `MGRS::Forward` (integer level) -/
+def utmString (zone : Int) (ix iy iband : Int) (prec : Nat) : List Char :=
+  let m : Int := 100000000000
+  let xh := ix / m
+  let yh := iy / m
+  let d : Int := 10 ^ (11 - prec)
+  [chr digits (zone / 10).toNat, chr digits (zone % 10).toNat,
+   chr latband (10 + iband).toNat,
+   chr (utmcols.getD ((zone - 1) % 3).toNat []) (xh - 1).toNat,
+   chr utmrow ((yh + (if (zone - 1) % 2 = 1 then 5 else 0)) % 20).toNat] ++
+  digitsW digits 10 prec ((ix - m * xh) / d).toNat ++ digitsW digits 10 prec ((iy - m * yh) / d).toNat
+
+theorem encodeInt_utm (zone : Int) (hz : 1 ≤ zone ∧ zone ≤ 60) (northp : Bool) (ix iy : Int) (hix : 0 ≤ ix) (hiy : 0 ≤ iy)
+    (iband : Int) (prec : Nat) (hprec : prec ≤ 11)
+    (hrow : utmRow iband (ix / 100000000000 - 1) (iy / 100000000000 % 20) =
+      iy / 100000000000 - (if northp then 0 else 100)) :
+    encodeInt zone northp ix iy iband prec = .ok (utmString zone ix iy iband prec) := by
+  have hz0 : zone ≠ 0 := by omega
+  have e1 : Int.tdiv ix 100000000000 = ix / 100000000000 := Int.tdiv_eq_ediv_of_nonneg hix
+  have e2 : Int.tdiv iy 100000000000 = iy / 100000000000 := Int.tdiv_eq_ediv_of_nonneg hiy
+  have hmt : mgrs_mult * tile = 100000000000 := by decide
+  have hper : period = 20 := rfl
+  have yh0 : 0 ≤ iy / 100000000000 := Int.ediv_nonneg hiy (by omega)
+  have t1 : (zone - 1).tmod 3 = (zone - 1) % 3 := Int.tmod_eq_emod_of_nonneg (by omega)
+  have t2 : (iy / 100000000000).tmod 20 = iy / 100000000000 % 20 := Int.tmod_eq_emod_of_nonneg yh0
+  have t3 : ∀ sh : Int, 0 ≤ sh → (iy / 100000000000 + sh).tmod 20 = (iy / 100000000000 + sh) % 20 :=
+    fun sh h => Int.tmod_eq_emod_of_nonneg (by omega)
+  have t4 : zone.tdiv 10 = zone / 10 := Int.tdiv_eq_ediv_of_nonneg (by omega)
+  have t5 : zone.tmod 10 = zone % 10 := Int.tmod_eq_emod_of_nonneg (by omega)
+  have r0 : 0 ≤ ix - 100000000000 * (ix / 100000000000) := by omega
+  have r1 : 0 ≤ iy - 100000000000 * (iy / 100000000000) := by omega
+  have hmp : (mgrs_maxprec - (prec:Int)).toNat = 11 - prec := by show ((11:Int) - prec).toNat = _; omega
+  have t6 : ∀ d : Int, (ix - 100000000000 * (ix / 100000000000)).tdiv d = (ix - 100000000000 * (ix / 100000000000)) / d :=
+    fun d => Int.tdiv_eq_ediv_of_nonneg r0
+  have t7 : ∀ d : Int, (iy - 100000000000 * (iy / 100000000000)).tdiv d = (iy - 100000000000 * (iy / 100000000000)) / d :=
+    fun d => Int.tdiv_eq_ediv_of_nonneg r1
+  have t3' : (iy / 100000000000 + (if (zone - 1) % 2 = 1 then mgrs_utmevenrowshift else 0)).tmod 20
+      = (iy / 100000000000 + (if (zone - 1) % 2 = 1 then 5 else 0)) % 20 := by
+    by_cases h : (zone - 1) % 2 = 1
+    · simp only [h, if_true]; exact t3 5 (by omega)
+    · simp only [h, if_false]; exact t3 0 (by omega)
+  have hrow' : utmRow iband (ix / 100000000000 - mgrs_minutmcol) (iy / 100000000000 % 20) =
+      iy / 100000000000 - (if northp = true then mgrs_minutmNrow else mgrs_maxutmSrow) := hrow
+  unfold encodeInt
+  simp only [hz0, ne_eq, not_false_eq_true, if_true, hmt, e1, e2, hper, t1, t2, t3', t4, t5, t6, t7, hrow', not_true_eq_false,
+    if_false, mgrs_base, hmp, Int.toNat_natCast, pure_bind]
+  show Except.ok _ = Except.ok _
+  congr 1
+  rw [List.take_of_length_le]
+  · unfold utmString
+    simp only [mgrs_minutmcol]
+    by_cases hp0 : prec = 0
+    · subst hp0; simp [digitsW]
+    · have : (prec : Int) > 0 := by omega
+      simp only [this, if_true, List.cons_append, List.nil_append]
+  · by_cases hp0 : prec = 0
+    · subst hp0; simp
+    · have : (prec : Int) > 0 := by omega
+      simp only [this, if_true, List.length_append, List.length_cons, List.length_nil, digitsW_length]
+      omega
+
+theorem digit_not_I : ∀ k < 10, upper (chr digits k).toNat ≠ 73 := by decide
+theorem band_not_digit : ∀ k < 20, lookup digits (chr latband k).toNat = none := by decide
+theorem digit_is_digit : ∀ k < 10, (lookup digits (chr digits k).toNat).isSome = true := by decide
+
+
+theorem zone_facts (zone : Int) (hz : 1 ≤ zone ∧ zone ≤ 60) :
+    (zone / 10).toNat < 10 ∧ (zone % 10).toNat < 10 ∧ ((zone - 1) % 3).toNat < 3 ∧
+    (((10 * (zone / 10).toNat + (zone % 10).toNat : Nat)) : Int) = zone ∧
+    (1 ≤ 10 * (zone / 10).toNat + (zone % 10).toNat ∧ 10 * (zone / 10).toNat + (zone % 10).toNat ≤ 60) ∧
+    0 ≤ zone - 1 := by omega
+
+theorem band_facts (iband : Int) (hib : -10 ≤ iband ∧ iband < 10) :
+    (10 + iband).toNat < 20 ∧ (((10 + iband).toNat : Nat) : Int) - 10 = iband ∧
+    (((((10 + iband).toNat : Nat) : Int) ≥ 10) ↔ (iband ≥ 0)) := by omega
+
+theorem col_facts (xh : Int) (hxh : 1 ≤ xh ∧ xh ≤ 8) :
+    (xh - 1).toNat < 8 ∧ (((xh - 1).toNat : Nat) : Int) = xh - 1 := by omega
+
+theorem row_facts (yh zone : Int) (_h0 : 0 ≤ yh) :
+    ((yh + (if (zone - 1) % 2 = 1 then 5 else 0)) % 20).toNat < 20 ∧
+    (if (zone - 1) % 2 = 1
+      then Int.tmod (((((yh + (if (zone - 1) % 2 = 1 then 5 else 0)) % 20).toNat : Nat) : Int) + 20 - 5) 20
+      else ((((yh + (if (zone - 1) % 2 = 1 then 5 else 0)) % 20).toNat : Nat) : Int)) = yh % 20 := by
+  by_cases h : (zone - 1) % 2 = 1
+  · simp only [h, if_true]
+    have : ((((yh + 5) % 20).toNat : Nat) : Int) = (yh + 5) % 20 := by omega
+    rw [this, Int.tmod_eq_emod_of_nonneg (by omega)]
+    omega
+  · simp only [h, if_false]
+    omega
+
+/-- **`reverse_forward` on the integer level, UTM zones** (all zones, bands, precisions, `centerp`).
+If the latitude band is consistent with the northing row (`hrow`, the test `Forward` itself makes), `Forward` writes
+`utmString` and `Reverse` of it returns the zone, the hemisphere of the band, the precision, and tile + digits of the
+same 100 km square: easting `⌊ix / 10^(11−prec)⌋`, northing `(row)·10^prec + digits` where `row` is the northing tile
+re-expressed in the band's hemisphere (folding by 100 tiles = 10 000 km). -/
+theorem reverse_forward_utm (zone : Int) (hz : 1 ≤ zone ∧ zone ≤ 60) (northp : Bool) (ix iy : Int) (hix : 0 ≤ ix) (hiy : 0 ≤ iy)
+    (iband : Int) (hib : -10 ≤ iband ∧ iband < 10) (prec : Nat) (hprec : prec ≤ 11)
+    (hxh : 1 ≤ ix / 100000000000 ∧ ix / 100000000000 ≤ 8)
+    (hrow : utmRow iband (ix / 100000000000 - 1) (iy / 100000000000 % 20) =
+      iy / 100000000000 - (if northp then 0 else 100))
+    (hR : iy / 100000000000 - (if northp then 0 else 100) ≠ 100) (cp : Bool) :
+    encodeInt zone northp ix iy iband prec = .ok (utmString zone ix iy iband prec) ∧
+    decodeInt (toBytes (utmString zone ix iy iband prec)) cp =
+      let d : Int := 10 ^ (11 - prec)
+      let R := iy / 100000000000 - (if northp then 0 else 100)
+      let x1 := (ix / 100000000000) * 10 ^ prec + (ix - 100000000000 * (ix / 100000000000)) / d
+      let y1 := (if iband ≥ 0 then R else R + 100) * 10 ^ prec + (iy - 100000000000 * (iy / 100000000000)) / d
+      .ok (.cell ⟨zone, decide (iband ≥ 0), if cp then 2 * x1 + 1 else x1, if cp then 2 * y1 + 1 else y1,
+        if cp then 10 ^ prec * 2 else 10 ^ prec, prec⟩) := by
+  refine ⟨encodeInt_utm zone hz northp ix iy hix hiy iband prec hprec hrow, ?_⟩
+  have yh0 : 0 ≤ iy / 100000000000 := Int.ediv_nonneg hiy (by omega)
+  have r0 : 0 ≤ ix - 100000000000 * (ix / 100000000000) ∧ ix - 100000000000 * (ix / 100000000000) < 100000000000 := by omega
+  have r1 : 0 ≤ iy - 100000000000 * (iy / 100000000000) ∧ iy - 100000000000 * (iy / 100000000000) < 100000000000 := by omega
+  have hdpos : (0:Int) < 10 ^ (11 - prec) := Int.pow_pos (by omega)
+  have hpw : (10:Int) ^ prec * 10 ^ (11 - prec) = 100000000000 := by
+    rw [← Int.pow_add, show prec + (11 - prec) = 11 by omega]; decide
+  have hdxlt : (ix - 100000000000 * (ix / 100000000000)) / 10 ^ (11 - prec) < 10 ^ prec :=
+    Int.ediv_lt_of_lt_mul hdpos (by rw [hpw]; exact r0.2)
+  have hdylt : (iy - 100000000000 * (iy / 100000000000)) / 10 ^ (11 - prec) < 10 ^ prec :=
+    Int.ediv_lt_of_lt_mul hdpos (by rw [hpw]; exact r1.2)
+  have hdx0 : 0 ≤ (ix - 100000000000 * (ix / 100000000000)) / 10 ^ (11 - prec) := Int.ediv_nonneg r0.1 (Int.le_of_lt hdpos)
+  have hdy0 : 0 ≤ (iy - 100000000000 * (iy / 100000000000)) / 10 ^ (11 - prec) := Int.ediv_nonneg r1.1 (Int.le_of_lt hdpos)
+  obtain ⟨dx, hdx⟩ : ∃ dx, dx = (ix - 100000000000 * (ix / 100000000000)) / 10 ^ (11 - prec) := ⟨_, rfl⟩
+  obtain ⟨dy, hdy⟩ : ∃ dy, dy = (iy - 100000000000 * (iy / 100000000000)) / 10 ^ (11 - prec) := ⟨_, rfl⟩
+  rw [← hdx] at hdxlt hdx0
+  rw [← hdy] at hdylt hdy0
+  have hdxN : dx.toNat < 10 ^ prec := by
+    have : ((dx.toNat : Nat) : Int) < ((10 ^ prec : Nat) : Int) := by
+      rw [Int.toNat_of_nonneg hdx0]; exact_mod_cast hdxlt
+    exact_mod_cast this
+  have hdyN : dy.toNat < 10 ^ prec := by
+    have : ((dy.toNat : Nat) : Int) < ((10 ^ prec : Nat) : Int) := by
+      rw [Int.toNat_of_nonneg hdy0]; exact_mod_cast hdylt
+    exact_mod_cast this
+  -- the byte string in cons form
+  have hS : toBytes (utmString zone ix iy iband prec) =
+      (chr digits (zone / 10).toNat).toNat :: (chr digits (zone % 10).toNat).toNat ::
+      (chr latband (10 + iband).toNat).toNat ::
+      (chr (utmcols.getD ((zone - 1) % 3).toNat []) (ix / 100000000000 - 1).toNat).toNat ::
+      (chr utmrow ((iy / 100000000000 + (if (zone - 1) % 2 = 1 then 5 else 0)) % 20).toNat).toNat ::
+      (toBytes (digitsW digits 10 prec dx.toNat) ++ toBytes (digitsW digits 10 prec dy.toNat)) := by
+    simp only [utmString, toBytes, List.map_append, List.map_cons, List.map_nil, List.cons_append, List.nil_append,
+      List.append_assoc, ← hdx, ← hdy]
+  have lx : (toBytes (digitsW digits 10 prec dx.toNat)).length = prec := by simp [toBytes, digitsW_length]
+  have ly : (toBytes (digitsW digits 10 prec dy.toNat)).length = prec := by simp [toBytes, digitsW_length]
+  obtain ⟨k1, k2, kcol, hzc, hzr, hz1⟩ := zone_facts zone hz
+  obtain ⟨kbd, a1, hkb⟩ := band_facts iband hib
+  obtain ⟨kc8, a2⟩ := col_facts (ix / 100000000000) hxh
+  obtain ⟨kr20, hunshift⟩ := row_facts (iy / 100000000000) zone yh0
+  rw [hS]
+  refine Eq.trans (decode_utm _ cp _ _ (zone / 10).toNat (zone % 10).toNat (10 + iband).toNat (ix / 100000000000 - 1).toNat
+    ((iy / 100000000000 + (if (zone - 1) % 2 = 1 then 5 else 0)) % 20).toNat prec dx.toNat dy.toNat
+    (iy / 100000000000 - (if northp then 0 else 100)) ?_ ?_ (digits_table_ok _ k1) (digits_table_ok _ k2) hzr
+    ?_ hprec ?_ ?_ ?_ ?_ ?_ ?_ ?_) ?_
+  · have := digit_not_I _ k1
+    simp [this]
+  · simp [digit_is_digit _ k1, digit_is_digit _ k2, band_not_digit _ kbd]
+  · simp only [List.length_cons, List.length_append, lx, ly]; omega
+  · exact latband_lookup _ kbd
+  · rw [hzc, Int.tmod_eq_emod_of_nonneg hz1]; exact utmcols_lookup _ kcol _ kc8
+  · exact utmrow_lookup _ kr20
+  · rw [hzc, a1, a2, ← hrow]
+    congr 1
+  · show _ ≠ (100:Int); exact hR
+  · simp only [List.drop_succ_cons, List.drop_zero]
+    rw [List.take_left' lx, readNum_digitsW digits 10 (by decide) digits_table_ok, Nat.mod_eq_of_lt hdxN]
+  · have : 5 + prec = prec + 5 := by omega
+    rw [this]
+    simp only [List.drop_succ_cons]
+    rw [List.drop_left' lx, List.take_of_length_le (by rw [ly]; exact Nat.le_refl _),
+      readNum_digitsW digits 10 (by decide) digits_table_ok, Nat.mod_eq_of_lt hdyN]
+  · have b1 : ((dx.toNat : Nat) : Int) = dx := Int.toNat_of_nonneg hdx0
+    have b2 : ((dy.toNat : Nat) : Int) = dy := Int.toNat_of_nonneg hdy0
+    simp only [hzc, a2, b1, b2, hkb, Int.sub_add_cancel, ← hdx, ← hdy]
+
+
+/-- non-vacuity of the hypotheses: zone 38, band S (`iband = 4`), 444 km E, 3684 km N -/
+example : utmRow 4 (444000000000 / 100000000000 - 1) (3684000000000 / 100000000000 % 20) =
+    3684000000000 / 100000000000 - (if true then 0 else 100) := by decide +kernel
+example : String.ofList (utmString 38 444000000000 3684000000000 4 2) = "38SMB4484" := by decide +kernel
+
+/-! ### `reverse_forward` on the integer level (UPS, zone 0) -/
+
+/-- `Reverse` on a well-formed UPS string, given what its pieces look up to -/
+theorem decode_ups (s : List Nat) (cp : Bool) (kb kc kr prec ex ny : Nat)
+    (hinv : (decide (s.length ≥ 3) && (s.take 3).map upper == [73, 78, 86]) = false)
+    (hds : (s.takeWhile (fun c => (lookup digits c).isSome)).take 3 = [])
+    (hlen : s.length = 3 + 2 * prec) (hprec : prec ≤ 11)
+    (hband : lookup upsband (s.getD 0 0) = some kb)
+    (hcol : lookup (upscols.getD kb []) (s.getD 1 0) = some kc)
+    (hrow : lookup (upsrows.getD (if (kb:Int) ≥ 2 then 1 else 0) []) (s.getD 2 0) = some kr)
+    (heast : readNum digits 10 ((s.drop 3).take prec) = some ex)
+    (hnorth : readNum digits 10 ((s.drop (3 + prec)).take prec) = some ny) :
+    decodeInt s cp = .ok (.cell
+      ⟨0, decide ((kb:Int) ≥ 2),
+       (if cp then 2 * (((kc:Int) + (if (kb:Int) % 2 = 1 then 20 else (if (kb:Int) ≥ 2 then 13 else 8))) * 10 ^ prec + ex) + 1
+          else ((kc:Int) + (if (kb:Int) % 2 = 1 then 20 else (if (kb:Int) ≥ 2 then 13 else 8))) * 10 ^ prec + ex),
+       (if cp then 2 * (((kr:Int) + (if (kb:Int) ≥ 2 then 13 else 8)) * 10 ^ prec + ny) + 1
+          else ((kr:Int) + (if (kb:Int) ≥ 2 then 13 else 8)) * 10 ^ prec + ny),
+       (if cp then 10 ^ prec * 2 else 10 ^ prec), prec⟩) := by
+  have l1 : ¬ (3 + 2 * prec < 0 + 1) := by omega
+  have l2 : ¬ (0 + 1 = 3 + 2 * prec) := by omega
+  have l3 : ¬ (3 + 2 * prec < 0 + 1 + 2) := by omega
+  have l6 : ¬ ((prec : Int) > mgrs_maxprec) := by show ¬ ((prec:Int) > 11); omega
+  have l7 : (3 + 2 * prec - 3) / 2 = prec := by omega
+  have l8 : ¬ ((3 + 2 * prec - 3) % 2 = 1) := by omega
+  have hk : (Int.toNat (kb:Int)) = kb := by omega
+  simp only [List.getD_eq_getElem?_getD] at hband hcol hrow
+  have hinv' : ¬ (List.take 3 (List.map upper s) = [73, 78, 86]) := by
+    intro h
+    rw [hlen] at hinv
+    simp [List.map_take, h] at hinv
+  unfold decodeInt
+  simp only [hds, hlen, List.length_nil, List.foldl_nil]
+  simp [zUPS, hinv', l1, l2, l3, l6, hband, hcol, hrow, heast, hnorth, hk]
+  cases cp <;> rfl
+
+/-- the UPS string written by `MGRS::Forward` (integer level) -/
+def upsString (northp : Bool) (ix iy : Int) (prec : Nat) : List Char :=
+  let m : Int := 100000000000
+  let xh := ix / m
+  let yh := iy / m
+  let d : Int := 10 ^ (11 - prec)
+  let eastp : Bool := decide (xh ≥ 20)
+  let ib : Nat := (if northp then 2 else 0) + (if eastp then 1 else 0)
+  [chr upsband ib,
+   chr (upscols.getD ib []) (xh - (if eastp then 20 else (if northp then 13 else 8))).toNat,
+   chr (upsrows.getD (if northp then 1 else 0) []) (yh - (if northp then 13 else 8)).toNat] ++
+  digitsW digits 10 prec ((ix - m * xh) / d).toNat ++ digitsW digits 10 prec ((iy - m * yh) / d).toNat
+
+theorem encodeInt_ups (northp : Bool) (ix iy : Int) (hix : 0 ≤ ix) (hiy : 0 ≤ iy) (iband : Int) (prec : Nat) (hprec : prec ≤ 11) :
+    encodeInt 0 northp ix iy iband prec = .ok (upsString northp ix iy prec) := by
+  have e1 : Int.tdiv ix 100000000000 = ix / 100000000000 := Int.tdiv_eq_ediv_of_nonneg hix
+  have e2 : Int.tdiv iy 100000000000 = iy / 100000000000 := Int.tdiv_eq_ediv_of_nonneg hiy
+  have hmt : mgrs_mult * tile = 100000000000 := by decide
+  have r0 : 0 ≤ ix - 100000000000 * (ix / 100000000000) := by omega
+  have r1 : 0 ≤ iy - 100000000000 * (iy / 100000000000) := by omega
+  have hmp : (mgrs_maxprec - (prec:Int)).toNat = 11 - prec := by show ((11:Int) - prec).toNat = _; omega
+  have t6 : ∀ d : Int, (ix - 100000000000 * (ix / 100000000000)).tdiv d = (ix - 100000000000 * (ix / 100000000000)) / d :=
+    fun d => Int.tdiv_eq_ediv_of_nonneg r0
+  have t7 : ∀ d : Int, (iy - 100000000000 * (iy / 100000000000)).tdiv d = (iy - 100000000000 * (iy / 100000000000)) / d :=
+    fun d => Int.tdiv_eq_ediv_of_nonneg r1
+  unfold encodeInt
+  simp only [ne_eq, not_true_eq_false, if_false, hmt, e1, e2, t6, t7, mgrs_base, hmp, Int.toNat_natCast, pure_bind,
+    List.length_nil, List.nil_append, mgrs_upseasting, mgrs_minupsNind, mgrs_minupsSind]
+  show Except.ok _ = Except.ok _
+  congr 1
+  rw [List.take_of_length_le]
+  · unfold upsString
+    by_cases hp0 : prec = 0
+    · subst hp0; simp [digitsW]
+    · have : (prec : Int) > 0 := by omega
+      simp only [this, if_true, List.cons_append, List.nil_append]
+  · by_cases hp0 : prec = 0
+    · subst hp0; simp
+    · have : (prec : Int) > 0 := by omega
+      simp only [this, if_true, List.length_append, List.length_cons, List.length_nil, digitsW_length]
+      omega
+
+theorem upsband_not_I : ∀ k < 4, upper (chr upsband k).toNat ≠ 73 := by decide
+theorem upsband_not_digit : ∀ k < 4, (lookup digits (chr upsband k).toNat).isSome = false := by decide
+theorem ups_table_sizes : (upscols.getD 0 []).length = 12 ∧ (upscols.getD 1 []).length = 12 ∧ (upscols.getD 2 []).length = 7 ∧
+    (upscols.getD 3 []).length = 7 ∧ (upsrows.getD 0 []).length = 24 ∧ (upsrows.getD 1 []).length = 14 := by decide
+
+/-- **`reverse_forward` on the integer level, UPS** (both poles, all tiles of the UPS range, precisions, `centerp`) -/
+theorem reverse_forward_ups (northp : Bool) (ix iy : Int) (hix : 0 ≤ ix) (hiy : 0 ≤ iy) (iband : Int)
+    (prec : Nat) (hprec : prec ≤ 11)
+    (hN : northp = true → (13 ≤ ix / 100000000000 ∧ ix / 100000000000 < 27) ∧ (13 ≤ iy / 100000000000 ∧ iy / 100000000000 < 27))
+    (hS : northp = false → (8 ≤ ix / 100000000000 ∧ ix / 100000000000 < 32) ∧ (8 ≤ iy / 100000000000 ∧ iy / 100000000000 < 32))
+    (cp : Bool) :
+    encodeInt 0 northp ix iy iband prec = .ok (upsString northp ix iy prec) ∧
+    decodeInt (toBytes (upsString northp ix iy prec)) cp =
+      let d : Int := 10 ^ (11 - prec)
+      let x1 := (ix / 100000000000) * 10 ^ prec + (ix - 100000000000 * (ix / 100000000000)) / d
+      let y1 := (iy / 100000000000) * 10 ^ prec + (iy - 100000000000 * (iy / 100000000000)) / d
+      .ok (.cell ⟨0, northp, if cp then 2 * x1 + 1 else x1, if cp then 2 * y1 + 1 else y1,
+        if cp then 10 ^ prec * 2 else 10 ^ prec, prec⟩) := by
+  refine ⟨encodeInt_ups northp ix iy hix hiy iband prec hprec, ?_⟩
+  have r0 : 0 ≤ ix - 100000000000 * (ix / 100000000000) ∧ ix - 100000000000 * (ix / 100000000000) < 100000000000 := by omega
+  have r1 : 0 ≤ iy - 100000000000 * (iy / 100000000000) ∧ iy - 100000000000 * (iy / 100000000000) < 100000000000 := by omega
+  have hdpos : (0:Int) < 10 ^ (11 - prec) := Int.pow_pos (by omega)
+  have hpw : (10:Int) ^ prec * 10 ^ (11 - prec) = 100000000000 := by
+    rw [← Int.pow_add, show prec + (11 - prec) = 11 by omega]; decide
+  have hdxlt : (ix - 100000000000 * (ix / 100000000000)) / 10 ^ (11 - prec) < 10 ^ prec :=
+    Int.ediv_lt_of_lt_mul hdpos (by rw [hpw]; exact r0.2)
+  have hdylt : (iy - 100000000000 * (iy / 100000000000)) / 10 ^ (11 - prec) < 10 ^ prec :=
+    Int.ediv_lt_of_lt_mul hdpos (by rw [hpw]; exact r1.2)
+  have hdx0 : 0 ≤ (ix - 100000000000 * (ix / 100000000000)) / 10 ^ (11 - prec) := Int.ediv_nonneg r0.1 (Int.le_of_lt hdpos)
+  have hdy0 : 0 ≤ (iy - 100000000000 * (iy / 100000000000)) / 10 ^ (11 - prec) := Int.ediv_nonneg r1.1 (Int.le_of_lt hdpos)
+  obtain ⟨dx, hdx⟩ : ∃ dx, dx = (ix - 100000000000 * (ix / 100000000000)) / 10 ^ (11 - prec) := ⟨_, rfl⟩
+  obtain ⟨dy, hdy⟩ : ∃ dy, dy = (iy - 100000000000 * (iy / 100000000000)) / 10 ^ (11 - prec) := ⟨_, rfl⟩
+  rw [← hdx] at hdxlt hdx0
+  rw [← hdy] at hdylt hdy0
+  have hdxN : dx.toNat < 10 ^ prec := by
+    have : ((dx.toNat : Nat) : Int) < ((10 ^ prec : Nat) : Int) := by
+      rw [Int.toNat_of_nonneg hdx0]; exact_mod_cast hdxlt
+    exact_mod_cast this
+  have hdyN : dy.toNat < 10 ^ prec := by
+    have : ((dy.toNat : Nat) : Int) < ((10 ^ prec : Nat) : Int) := by
+      rw [Int.toNat_of_nonneg hdy0]; exact_mod_cast hdylt
+    exact_mod_cast this
+  have b1 : ((dx.toNat : Nat) : Int) = dx := Int.toNat_of_nonneg hdx0
+  have b2 : ((dy.toNat : Nat) : Int) = dy := Int.toNat_of_nonneg hdy0
+  have lx : (toBytes (digitsW digits 10 prec dx.toNat)).length = prec := by simp [toBytes, digitsW_length]
+  have ly : (toBytes (digitsW digits 10 prec dy.toNat)).length = prec := by simp [toBytes, digitsW_length]
+  obtain ⟨s0, s1, s2, s3, s4, s5⟩ := ups_table_sizes
+  obtain ⟨xh, hxh⟩ : ∃ xh, xh = ix / 100000000000 := ⟨_, rfl⟩
+  obtain ⟨yh, hyh⟩ : ∃ yh, yh = iy / 100000000000 := ⟨_, rfl⟩
+  simp only [← hxh, ← hyh] at hN hS hdx hdy ⊢
+  -- the byte string in cons form, for the four (pole, side) cases
+  have hSform : ∀ (ib : Nat) (cx cy : Int) (rr : Nat), 
+      toBytes ([chr upsband ib, chr (upscols.getD ib []) (xh - cx).toNat, chr (upsrows.getD rr []) (yh - cy).toNat] ++
+        digitsW digits 10 prec dx.toNat ++ digitsW digits 10 prec dy.toNat) =
+      (chr upsband ib).toNat :: (chr (upscols.getD ib []) (xh - cx).toNat).toNat :: (chr (upsrows.getD rr []) (yh - cy).toNat).toNat ::
+        (toBytes (digitsW digits 10 prec dx.toNat) ++ toBytes (digitsW digits 10 prec dy.toNat)) := by
+    intro ib cx cy rr
+    simp only [toBytes, List.map_append, List.map_cons, List.map_nil, List.cons_append, List.nil_append, List.append_assoc]
+  have main : ∀ (ib : Nat) (hib : ib < 4) (cx cy : Int) (rr : Nat) (hrr : rr = if (ib:Int) ≥ 2 then 1 else 0)
+      (hcx : (xh - cx).toNat < (upscols.getD ib []).length) (hcy : (yh - cy).toNat < (upsrows.getD rr []).length) (hrr2 : rr < 2)
+      (hx0 : 0 ≤ xh - cx) (hy0 : 0 ≤ yh - cy)
+      (hcxv : cx = if (ib:Int) % 2 = 1 then 20 else (if (ib:Int) ≥ 2 then 13 else 8)) (hcyv : cy = if (ib:Int) ≥ 2 then 13 else 8),
+      decodeInt ((chr upsband ib).toNat :: (chr (upscols.getD ib []) (xh - cx).toNat).toNat :: (chr (upsrows.getD rr []) (yh - cy).toNat).toNat ::
+        (toBytes (digitsW digits 10 prec dx.toNat) ++ toBytes (digitsW digits 10 prec dy.toNat))) cp =
+      .ok (.cell ⟨0, decide ((ib:Int) ≥ 2), if cp then 2 * (xh * 10 ^ prec + dx) + 1 else xh * 10 ^ prec + dx,
+        if cp then 2 * (yh * 10 ^ prec + dy) + 1 else yh * 10 ^ prec + dy, if cp then 10 ^ prec * 2 else 10 ^ prec, prec⟩) := by
+    intro ib hib cx cy rr hrr hcx hcy hrr2 hx0 hy0 hcxv hcyv
+    refine Eq.trans (decode_ups _ cp ib (xh - cx).toNat (yh - cy).toNat prec dx.toNat dy.toNat ?_ ?_ ?_ hprec ?_ ?_ ?_ ?_ ?_) ?_
+    · have := upsband_not_I _ hib
+      simp [this]
+    · simp [upsband_not_digit _ hib]
+    · simp only [List.length_cons, List.length_append, lx, ly]; omega
+    · exact upsband_lookup _ hib
+    · exact upscols_lookup _ hib _ hcx
+    · rw [← hrr]; exact upsrows_lookup _ hrr2 _ hcy
+    · simp only [List.drop_succ_cons, List.drop_zero]
+      rw [List.take_left' lx, readNum_digitsW digits 10 (by decide) digits_table_ok, Nat.mod_eq_of_lt hdxN]
+    · have : 3 + prec = prec + 3 := by omega
+      rw [this]
+      simp only [List.drop_succ_cons]
+      rw [List.drop_left' lx, List.take_of_length_le (by rw [ly]; exact Nat.le_refl _),
+        readNum_digitsW digits 10 (by decide) digits_table_ok, Nat.mod_eq_of_lt hdyN]
+    · have c1 : (((xh - cx).toNat : Nat) : Int) = xh - cx := Int.toNat_of_nonneg hx0
+      have c2 : (((yh - cy).toNat : Nat) : Int) = yh - cy := Int.toNat_of_nonneg hy0
+      simp only [c1, c2, b1, b2]
+      rw [← hcxv, ← hcyv]
+      simp only [Int.sub_add_cancel]
+  unfold upsString
+  simp only [← hxh, ← hyh, ← hdx, ← hdy]
+  cases northp
+  · obtain ⟨⟨x1, x2⟩, y1, y2⟩ := hS rfl
+    by_cases he : xh ≥ 20
+    · simp only [he, decide_true, Bool.false_eq_true, if_false, if_true, Nat.zero_add]
+      rw [hSform, main 1 (by omega) 20 8 0 (by decide) (by rw [s1]; omega) (by rw [s4]; omega) (by omega) (by omega) (by omega)
+        (by decide) (by decide)]
+      simp
+    · simp only [he, decide_false, Bool.false_eq_true, if_false, Nat.add_zero]
+      rw [hSform, main 0 (by omega) 8 8 0 (by decide) (by rw [s0]; omega) (by rw [s4]; omega) (by omega) (by omega) (by omega)
+        (by decide) (by decide)]
+      simp
+  · obtain ⟨⟨x1, x2⟩, y1, y2⟩ := hN rfl
+    by_cases he : xh ≥ 20
+    · simp only [he, decide_true, if_true, Nat.reduceAdd]
+      rw [hSform, main 3 (by omega) 20 13 1 (by decide) (by rw [s3]; omega) (by rw [s5]; omega) (by omega) (by omega) (by omega)
+        (by decide) (by decide)]
+      simp
+    · simp only [he, decide_false, Bool.false_eq_true, if_false, if_true, Nat.add_zero]
+      rw [hSform, main 2 (by omega) 13 13 1 (by decide) (by rw [s2]; omega) (by rw [s5]; omega) (by omega) (by omega) (by omega)
+        (by decide) (by decide)]
+      simp
+
+example : String.ofList (upsString true 2000000000000 2000000000000 1) = "ZAH00" := by decide +kernel
+
 /-! ### range tables -/
 
 theorem mgrs_range_tables :
